@@ -595,7 +595,7 @@ def same_process_stage(chk, quick, good):
 
 def run(chk):
     quick = chk.tier == "quick"
-    ok, log = chk.prove(["extract/Extract_C03.vo", "extract/Extract_ED.vo"], extra_props=["Properties_C03_source.v"])
+    ok, log = chk.prove(["extract/Extract_C03.vo", "extract/Extract_ED.vo"], extra_props=["Properties_C03_source.v", "Properties_C03_statics.v"])
     chk.level = "proof"
     chk.trusted += ["translator/gen_ham.py (statement splitter + shape recognition, ~1500 lines of Python): reads the loop ranges, case chains, written cells and broadcast "
                     "calls of Hamiltonian / HamiltonianPart off the source into coq/gen/Gen_Ham*.v, Gen_HPart*.v; Properties_C03_source.v is about those generated "
